@@ -178,6 +178,27 @@ impl Obj {
     }
 }
 
+/// End of an accessible page that is followed by an inaccessible one: an object placed so that its
+/// last byte is the last byte of the page shows any access that reaches beyond the object.
+fn guard_end() -> u64 {
+    static mut END: u64 = 0;
+    unsafe {
+        if END == 0 {
+            let p = libc::mmap(core::ptr::null_mut(), 8192, libc::PROT_READ | libc::PROT_WRITE, libc::MAP_PRIVATE | libc::MAP_ANONYMOUS, -1, 0);
+            assert!(p != libc::MAP_FAILED);
+            libc::mprotect((p as *mut u8).add(4096) as *mut libc::c_void, 4096, libc::PROT_NONE);
+            END = p as u64 + 4096;
+        }
+        END
+    }
+}
+
+unsafe fn at_edge<P>(make: P) -> &'static mut P {
+    let p = (guard_end() - core::mem::size_of::<P>() as u64) as *mut P;
+    p.write(make);
+    &mut *p
+}
+
 fn port_pick(rng: &mut Rng, used: &[u16]) -> u16 {
     match rng.below(13) {
         // neighbours of a port in use (n-1, n^1, n^2) and the last ports of the I/O space
@@ -209,7 +230,7 @@ pub fn gen(seed: u64) -> Replay {
     }
     let mut next_id = 0u64;
     for _ in 0..n {
-        let op = if ids.is_empty() { 0 } else { rng.weighted(&[3, 6, 6, 2, 2, 2, 2, 2, 2, 2]) };
+        let op = if ids.is_empty() { 0 } else { rng.weighted(&[3, 6, 6, 2, 2, 2, 2, 2, 2, 2, 2]) };
         match op {
             0 => {
                 let access = *rng.pick(&["rw", "ro", "wo"]);
@@ -250,6 +271,12 @@ pub fn gen(seed: u64) -> Replay {
                 let same: Vec<u64> = ids.iter().filter(|y| y.1 == x.1 && y.2 == x.2).map(|y| y.0).collect();
                 let b = if rng.chance(70) { *rng.pick(&same) } else { rng.pick(&ids).0 };
                 steps.push(json!({"op": if op == 4 { "eq" } else { "ne" }, "a": x.0, "b": b}));
+            }
+            10 => {
+                // a short-lived object whose last byte is the last byte of a mapped page
+                let access = rng.below(3);
+                let write = if access == 1 { false } else if access == 2 { true } else { rng.chance(50) };
+                steps.push(json!({"op": "edge", "access": access, "width": *rng.pick(&[1u64, 2, 4]), "port": port_pick(&mut rng, &used), "write": write, "value": rng.next() as u32}));
             }
             9 => {
                 let v = match rng.below(4) {
@@ -475,6 +502,44 @@ pub fn run(rp: &Replay, st: &mut Stats) -> Option<Violation> {
                 }
                 st.count("chained_accesses_in_one_function");
                 st.distinct_key(&[9, kind, 0, 0, 0, 0, 0]);
+            }
+            "edge" => {
+                let (acc, width) = (s["access"].as_u64().unwrap_or(0) as u8, s["width"].as_u64().unwrap_or(1) as u8);
+                let port = s["port"].as_u64().unwrap_or(0) as u16;
+                let is_read = !s["write"].as_bool().unwrap_or(false);
+                let value = s["value"].as_u64().unwrap_or(0) as u32;
+                let r = sut_call("edge", || unsafe {
+                    match (acc, width) {
+                        (0, 1) => { let p = at_edge(Port::<u8>::new(port)); if is_read { Some(p.read() as u32) } else { p.write(value as u8); None } }
+                        (0, 2) => { let p = at_edge(Port::<u16>::new(port)); if is_read { Some(p.read() as u32) } else { p.write(value as u16); None } }
+                        (0, _) => { let p = at_edge(Port::<u32>::new(port)); if is_read { Some(p.read()) } else { p.write(value); None } }
+                        (1, 1) => Some(at_edge(PortReadOnly::<u8>::new(port)).read() as u32),
+                        (1, 2) => Some(at_edge(PortReadOnly::<u16>::new(port)).read() as u32),
+                        (1, _) => Some(at_edge(PortReadOnly::<u32>::new(port)).read()),
+                        (_, 1) => { at_edge(PortWriteOnly::<u8>::new(port)).write(value as u8); None }
+                        (_, 2) => { at_edge(PortWriteOnly::<u16>::new(port)).write(value as u16); None }
+                        _ => { at_edge(PortWriteOnly::<u32>::new(port)).write(value); None }
+                    }
+                });
+                st.calls += 1;
+                st.count("object_at_the_end_of_a_mapped_page");
+                let trace = std::mem::take(&mut world().cpu.trace);
+                st.fold_trace(&trace);
+                let got = match r {
+                    Err(m) => return Some(viol(&["C18"], "panic", i, format!("port access through an object at the end of a page panicked: {m}"))),
+                    Ok(v) => v,
+                };
+                let is_read = is_read || acc == 1;
+                let is_read = is_read && acc != 2;
+                let ok = trace.len() == 1
+                    && match &trace[0] {
+                        Ev::In { width: w2, port: p2, val } => is_read && *w2 == width && *p2 == port && got == Some(*val),
+                        Ev::Out { width: w2, port: p2, val } => !is_read && *w2 == width && *p2 == port && *val == value & mask(width),
+                        _ => false,
+                    };
+                if !ok {
+                    return Some(viol(&["C18"], "port-access", i, format!("{} through a {}-bit port object for port {port:#x} placed at the end of a page executed {trace:x?} (returned {got:x?}, value {:#x})", if is_read { "read" } else { "write" }, width * 8, value & mask(width))));
+                }
             }
             "burst" => {
                 let id = s["id"].as_u64().unwrap();
